@@ -1103,7 +1103,7 @@ def unpack_named_tuple(spec: ValueSpec) -> Expression:
         spec.origin_type
     ]
     annotations = {
-        k: resolved.get(v, v)
+        k: substitute_type_params(v, resolved)
         for k, v in getattr(spec.origin_type, "__annotations__", {}).items()
     }
     fields = getattr(spec.type, "_fields", ())
@@ -1213,7 +1213,7 @@ def unpack_typed_dict(spec: ValueSpec) -> Expression:
         spec.origin_type
     ]
     annotations = {
-        plain_str(k): resolved.get(v, v)
+        plain_str(k): substitute_type_params(v, resolved)
         for k, v in spec.origin_type.__annotations__.items()
     }
     all_keys = list(annotations.keys())
